@@ -1,11 +1,299 @@
 import VrpModel.Export
+import VrpProofs.Lemmas.QuboBridge
+import VrpProofs.Props.C01
+import VrpProofs.Lemmas.Export
+import Mathlib.Data.Rat.Floor
 import Mathlib.Algebra.Order.Field.Rat
+import Mathlib.Algebra.Order.Floor.Ring
 import Mathlib.Tactic.Ring
+import Mathlib.Tactic.Linarith
 
+/-!
+# C10 — Exported problem files represent the in-memory problem (record level)
+-/
 namespace Vrp.C10
-open Vrp
+open Vrp Finset
 
-/-- placeholder until the property theorems are merged -/
-theorem exportFile_const (n : ℕ) (M : Mat) (d : Vec) (c : ℚ) : (exportFile n M d c).const = round2 c := rfl
+/-- the coefficient the file should carry at `(i, j)`: the rounded diagonal term (from `d`) resp. the rounded
+    off-diagonal entry, `0` where the in-memory coefficient is zero (no record is written) -/
+def coeff100 (M : Mat) (d : Vec) (i j : ℕ) : ℤ :=
+  if i = j then (if d i = 0 then 0 else round2 (d i)) else (if M i j = 0 then 0 else round2 (M i j))
+
+/-! ## helper lemmas -/
+
+theorem rat_floor_eq (q : ℚ) : q.floor = ⌊q⌋ := rfl
+
+theorem diag_keys (n : ℕ) (M : Mat) (d : Vec) (c : ℚ) :
+    ((exportFile n M d c).diag.map fun r => (r.i, r.j)) =
+      (List.range n).filterMap fun i => if d i = 0 then none else some (i, i) := by
+  simp only [exportFile, List.map_filterMap]
+  congr 1; funext i; split_ifs <;> rfl
+
+theorem off_keys (n : ℕ) (M : Mat) (d : Vec) (c : ℚ) :
+    ((exportFile n M d c).off.map fun r => (r.i, r.j)) =
+      (List.range n).flatMap fun r => (List.range n).filterMap fun c =>
+        if r = c ∨ M r c = 0 then none else some (r, c) := by
+  simp only [exportFile, List.map_flatMap, List.map_filterMap]
+  congr 1; funext i; congr 1; funext j; split_ifs <;> rfl
+
+/-! ## statements -/
+
+/-- rounding to two decimals is the identity on multiples of 0.01 -/
+theorem round2_id_on_hundredths (z : ℤ) : round2 ((z : ℚ) / 100) = z := by
+  have h : (z : ℚ) / 100 * 100 = z := by ring
+  simp only [round2, h, Rat.floor_intCast, sub_self]
+  norm_num
+
+/-- rounding error is at most half a hundredth -/
+theorem round2_error (q : ℚ) : |(round2 q : ℚ) / 100 - q| ≤ 1 / 200 := by
+  have h1 : ((q * 100).floor : ℚ) ≤ q * 100 := by rw [rat_floor_eq]; exact Int.floor_le _
+  have h2 : q * 100 < ((q * 100).floor : ℚ) + 1 := by rw [rat_floor_eq]; exact Int.lt_floor_add_one _
+  rw [abs_le]
+  simp only [round2]
+  split_ifs with a b c
+  all_goals (push_cast; constructor <;> linarith)
+
+/-- **diagonal records**: exactly the non-zero diagonal terms, at their own index, rounded -/
+theorem export_diag_mem (n : ℕ) (M : Mat) (d : Vec) (c : ℚ) (r : Rec) :
+    r ∈ (exportFile n M d c).diag ↔ ∃ i < n, d i ≠ 0 ∧ r = ⟨i, i, round2 (d i), decide (d i < 0)⟩ := by
+  simp only [exportFile, List.mem_filterMap, List.mem_range]
+  constructor
+  · rintro ⟨i, hi, h⟩
+    by_cases h0 : d i = 0
+    · simp [h0] at h
+    · rw [if_neg h0] at h
+      exact ⟨i, hi, h0, (Option.some.inj h).symm⟩
+  · rintro ⟨i, hi, h0, rfl⟩
+    exact ⟨i, hi, by rw [if_neg h0]⟩
+
+/-- **off-diagonal records**: exactly the non-zero off-diagonal entries, at their own indices, rounded -/
+theorem export_off_mem (n : ℕ) (M : Mat) (d : Vec) (c : ℚ) (r : Rec) :
+    r ∈ (exportFile n M d c).off ↔
+      ∃ i < n, ∃ j < n, i ≠ j ∧ M i j ≠ 0 ∧ r = ⟨i, j, round2 (M i j), decide (M i j < 0)⟩ := by
+  simp only [exportFile, List.mem_flatMap, List.mem_filterMap, List.mem_range]
+  constructor
+  · rintro ⟨i, hi, j, hj, h⟩
+    by_cases h0 : i = j ∨ M i j = 0
+    · simp [h0] at h
+    · rw [if_neg h0] at h
+      push Not at h0
+      exact ⟨i, hi, j, hj, h0.1, h0.2, (Option.some.inj h).symm⟩
+  · rintro ⟨i, hi, j, hj, hij, h0, rfl⟩
+    refine ⟨i, hi, j, hj, ?_⟩
+    rw [if_neg]; push Not; exact ⟨hij, h0⟩
+
+/-- **each coefficient exactly once, nothing else**: the index pairs of all records are pairwise distinct -/
+theorem export_each_coeff_once (n : ℕ) (M : Mat) (d : Vec) (c : ℚ) :
+    (((exportFile n M d c).diag ++ (exportFile n M d c).off).map fun r => (r.i, r.j)).Nodup := by
+  rw [List.map_append, diag_keys, off_keys, List.nodup_append]
+  refine ⟨?_, ?_, ?_⟩
+  · refine List.Nodup.filterMap ?_ List.nodup_range
+    intro a a' b h h'
+    split_ifs at h h' <;> simp at h h'
+    rw [← h] at h'
+    exact (Prod.mk.inj h').1.symm
+  · rw [List.nodup_flatMap]
+    constructor
+    · intro r _
+      refine List.Nodup.filterMap ?_ List.nodup_range
+      intro a a' b h h'
+      split_ifs at h h' <;> simp at h h'
+      rw [← h] at h'
+      exact (Prod.mk.inj h').2.symm
+    · refine List.Pairwise.imp ?_ List.nodup_range
+      intro a b hab
+      simp only [Function.onFun, List.disjoint_left, List.mem_filterMap, List.mem_range]
+      rintro ⟨x, y⟩ ⟨j, _, h⟩ ⟨j', _, h'⟩
+      split_ifs at h h'; simp at h h'
+      exact hab (h.1.trans h'.1.symm)
+  · simp only [List.mem_filterMap, List.mem_flatMap, List.mem_range]
+    rintro ⟨x, y⟩ ⟨i, _, h⟩ ⟨x', y'⟩ ⟨r, _, j, _, h'⟩
+    split_ifs at h h' with h1 h2; simp at h h'
+    push Not at h2
+    intro heq
+    simp at heq
+    omega
+
+/-- the loader recovers, entry by entry, the rounded in-memory coefficients -/
+theorem load_entry (n : ℕ) (M : Mat) (d : Vec) (c : ℚ) (i j : ℕ) (hi : i < n) (hj : j < n) :
+    (loadFile (exportFile n M d c)).entry i j = coeff100 M d i j := by
+  rw [loadFile_entry]
+  have hnd := export_each_coeff_once n M d c
+  have key : ∀ r : Rec, r ∈ (exportFile n M d c).diag ++ (exportFile n M d c).off →
+      r.i = i → r.j = j → r.h = coeff100 M d i j := by
+    intro r hr hri hrj
+    rcases List.mem_append.1 hr with hr | hr
+    · obtain ⟨k, _, hk0, rfl⟩ := (export_diag_mem n M d c r).1 hr
+      simp only at hri hrj
+      subst hri; subst hrj
+      simp [coeff100, hk0]
+    · obtain ⟨k, _, l, _, hkl, hk0, rfl⟩ := (export_off_mem n M d c r).1 hr
+      simp only at hri hrj
+      subst hri; subst hrj
+      simp [coeff100, hkl, hk0]
+  by_cases hex : ∃ r ∈ (exportFile n M d c).diag ++ (exportFile n M d c).off, r.i = i ∧ r.j = j
+  · obtain ⟨r, hr, hri, hrj⟩ := hex
+    have := entryOf_eq_of_mem _ hnd r hr
+    rw [hri, hrj] at this
+    rw [this, key r hr hri hrj]
+  · push Not at hex
+    rw [entryOf_eq_zero _ _ _ (fun r hr h => hex r hr h.1 h.2)]
+    unfold coeff100
+    by_cases hij : i = j
+    · subst hij
+      rw [if_pos rfl]
+      by_cases h0 : d i = 0
+      · rw [if_pos h0]
+      · exfalso
+        exact hex _ (List.mem_append_left _ ((export_diag_mem n M d c _).2 ⟨i, hi, h0, rfl⟩)) rfl rfl
+    · rw [if_neg hij]
+      by_cases h0 : M i j = 0
+      · rw [if_pos h0]
+      · exfalso
+        exact hex _ (List.mem_append_right _ ((export_off_mem n M d c _).2 ⟨i, hi, j, hj, hij, h0, rfl⟩)) rfl rfl
+
+/-- all record indices are below `n` -/
+theorem export_rec_lt (n : ℕ) (M : Mat) (d : Vec) (c : ℚ) (r : Rec)
+    (hr : r ∈ (exportFile n M d c).diag ++ (exportFile n M d c).off) : r.i < n ∧ r.j < n := by
+  rcases List.mem_append.1 hr with hr | hr
+  · obtain ⟨k, hk, _, rfl⟩ := (export_diag_mem n M d c r).1 hr
+    exact ⟨hk, hk⟩
+  · obtain ⟨k, hk, l, hl, _, _, rfl⟩ := (export_off_mem n M d c r).1 hr
+    exact ⟨hk, hl⟩
+
+/-- entries at or beyond the loaded dimension are zero -/
+theorem load_entry_beyond_dim (f : ExportFile) (i j : ℕ)
+    (h : (loadFile f).dim ≤ i ∨ (loadFile f).dim ≤ j) : (loadFile f).entry i j = 0 := by
+  rw [loadFile_entry]
+  refine entryOf_eq_zero _ _ _ (fun r hr hk => ?_)
+  have := loadFile_mem_lt_dim f r hr
+  rw [hk.1, hk.2] at this
+  rcases h with h | h
+  · exact absurd (lt_of_le_of_lt (le_max_left _ _) this) (not_lt.2 h)
+  · exact absurd (lt_of_le_of_lt (le_max_right _ _) this) (not_lt.2 h)
+
+/-- entries outside `0..n-1` are zero, the loaded dimension is at most `n` (trailing variables without any
+    coefficient are absent from the file format), and the constant is the rounded constant -/
+theorem load_shape (n : ℕ) (M : Mat) (d : Vec) (c : ℚ) :
+    (loadFile (exportFile n M d c)).dim ≤ n ∧ (loadFile (exportFile n M d c)).const = round2 c ∧
+    ∀ i j, (n ≤ i ∨ n ≤ j) → (loadFile (exportFile n M d c)).entry i j = 0 := by
+  refine ⟨?_, rfl, ?_⟩
+  · cases hl : (exportFile n M d c).diag ++ (exportFile n M d c).off with
+    | nil => simp [loadFile, hl]
+    | cons a t =>
+      have hlt : ∀ r ∈ (exportFile n M d c).diag ++ (exportFile n M d c).off, max r.i r.j < n :=
+        fun r hr => max_lt (export_rec_lt n M d c r hr).1 (export_rec_lt n M d c r hr).2
+      have hn : 0 < n := lt_of_le_of_lt (Nat.zero_le _) (hlt a (by rw [hl]; exact List.mem_cons_self ..))
+      simp only [loadFile, hl, List.isEmpty_cons]
+      rw [← hl]
+      refine Nat.succ_le_of_lt (foldl_max_lt _ _ _ hn ?_)
+      intro x hx
+      obtain ⟨r, hr, rfl⟩ := List.mem_map.1 hx
+      exact hlt r hr
+  · intro i j hij
+    rw [loadFile_entry]
+    refine entryOf_eq_zero _ _ _ (fun r hr hk => ?_)
+    have := export_rec_lt n M d c r hr
+    omega
+
+/-- **reading an Ising file back gives the energy function of the rounded in-memory problem**, at every
+    spin vector (in units of 1/100; sums over all `n` variables — the variables beyond the loaded dimension
+    have no coefficient) -/
+theorem load_export_energy (C : Container) (s : ℕ → ℤ) :
+    (loadFile C.exportIsing).isingEnergy100 s
+      = sumToI C.n (fun i => sumToI C.n fun j => if i = j then 0 else coeff100 C.J C.h i j * s i * s j)
+        + sumToI C.n (fun i => coeff100 C.J C.h i i * s i) + round2 C.ci := by
+  obtain ⟨hdim, hconst, _⟩ := load_shape C.n C.J C.h C.ci
+  unfold Container.exportIsing
+  unfold Loaded.isingEnergy100
+  rw [hconst]
+  simp only [sumToI_eq]
+  set L := loadFile (exportFile C.n C.J C.h C.ci) with hL
+  have h2 := sum2_extend L.dim C.n hdim (fun i j => if i = j then 0 else L.entry i j * s i * s j)
+    (fun i j hij => by
+      split_ifs
+      · rfl
+      · rw [load_entry_beyond_dim _ i j hij]; ring)
+  have h1 := sum1_extend L.dim C.n hdim (fun i => L.entry i i * s i)
+    (fun i hi => by rw [load_entry_beyond_dim _ i i (Or.inl hi)]; ring)
+  rw [h1, h2]
+  congr 2
+  · refine sum_congr rfl (fun i hi => sum_congr rfl (fun j hj => ?_))
+    rw [hL, load_entry C.n C.J C.h C.ci i j (mem_range.1 hi) (mem_range.1 hj)]
+  · refine sum_congr rfl (fun i hi => ?_)
+    rw [hL, load_entry C.n C.J C.h C.ci i i (mem_range.1 hi) (mem_range.1 hi)]
+
+/-- an integer-valued QUBO (every feasibility instance: A, b, R integral, ρ = 1) has Ising coefficients that
+    are multiples of 1/4, hence of 0.01 -/
+theorem feas_ising_coeffs_hundredths (n : ℕ) (Q : Mat) (c : ℚ) (hQ : ∀ i j, ∃ z : ℤ, Q i j = z) (hc : ∃ z : ℤ, c = z) :
+    (∀ i j, ∃ z : ℤ, isingJ Q i j = (z : ℚ) / 100) ∧ (∀ i, ∃ z : ℤ, isingH n Q i = (z : ℚ) / 100) ∧
+    (∃ z : ℤ, isingC n Q c = (z : ℚ) / 100) := by
+  obtain ⟨zc, rfl⟩ := hc
+  refine ⟨fun i j => ?_, fun i => ?_, ?_⟩
+  · obtain ⟨z, hz⟩ := hQ i j
+    by_cases hij : i = j
+    · exact ⟨0, by simp [isingJ, hij]⟩
+    · exact ⟨25 * z, by simp only [isingJ, if_neg hij, hz]; push_cast; ring⟩
+  · obtain ⟨a, ha⟩ := sumTo_int n (fun j => Q j i) (fun j => hQ j i)
+    obtain ⟨b, hb⟩ := sumTo_int n (fun j => Q i j) (fun j => hQ i j)
+    exact ⟨-(25 * (a + b)), by simp only [isingH, ha, hb]; push_cast; ring⟩
+  · obtain ⟨a, ha⟩ := sumTo_int n (fun i => sumTo n fun j => Q i j)
+      (fun i => sumTo_int n (fun j => Q i j) (fun j => hQ i j))
+    obtain ⟨b, hb⟩ := sumTo_int n (fun i => Q i i) (fun i => hQ i i)
+    exact ⟨25 * (a + b) + 100 * zc, by simp only [isingC, ha, hb]; push_cast; ring⟩
+
+theorem round2_exact (q : ℚ) (h : ∃ z : ℤ, q = (z : ℚ) / 100) : (round2 q : ℚ) = 100 * q := by
+  obtain ⟨z, rfl⟩ := h
+  rw [round2_id_on_hundredths]; ring
+
+theorem coeff100_off_exact (M : Mat) (d : Vec) (i j : ℕ) (hij : i ≠ j) (h : ∃ z : ℤ, M i j = (z : ℚ) / 100) :
+    (coeff100 M d i j : ℚ) = 100 * M i j := by
+  unfold coeff100
+  rw [if_neg hij]
+  by_cases h0 : M i j = 0
+  · rw [if_pos h0, h0]; simp
+  · rw [if_neg h0, round2_exact _ h]
+
+theorem coeff100_diag_exact (M : Mat) (d : Vec) (i : ℕ) (h : ∃ z : ℤ, d i = (z : ℚ) / 100) :
+    (coeff100 M d i i : ℚ) = 100 * d i := by
+  unfold coeff100
+  rw [if_pos rfl]
+  by_cases h0 : d i = 0
+  · rw [if_pos h0, h0]; simp
+  · rw [if_neg h0, round2_exact _ h]
+
+/-- … so the file carries them exactly: the loaded energy equals 100 × the in-memory Ising energy -/
+theorem load_export_exact_feasibility (n : ℕ) (Q : Mat) (c : ℚ) (pattern : String)
+    (hQ : ∀ i j, ∃ z : ℤ, applyPattern (parsePattern pattern) Q i j = z) (hc : ∃ z : ℤ, c = z) (s : ℕ → ℤ) :
+    let C := Container.mk' n Q c pattern
+    ((loadFile C.exportIsing).isingEnergy100 s : ℚ) = 100 * evalIsing C.n C.J C.h C.ci (fun i => (s i : ℚ)) := by
+  intro C
+  obtain ⟨hJ, hH, hC⟩ := feas_ising_coeffs_hundredths n (applyPattern (parsePattern pattern) Q) c hQ hc
+  have hn : C.n = n := rfl
+  have hCJ : C.J = isingJ (applyPattern (parsePattern pattern) Q) := rfl
+  have hCh : C.h = isingH n (applyPattern (parsePattern pattern) Q) := rfl
+  have hCc : C.ci = isingC n (applyPattern (parsePattern pattern) Q) c := rfl
+  rw [load_export_energy, evalIsing_eq]
+  unfold G.evalIsing G.quad
+  simp only [sumToI_eq]
+  push_cast
+  rw [mul_add, mul_add, Finset.mul_sum, Finset.mul_sum]
+  congr 2
+  · refine sum_congr rfl (fun i _ => ?_)
+    rw [Finset.mul_sum]
+    refine sum_congr rfl (fun j _ => ?_)
+    by_cases hij : i = j
+    · subst hij
+      rw [if_pos rfl, hCJ, C01.ising_diag_zero]; ring
+    · rw [if_neg hij, coeff100_off_exact _ _ i j hij (by rw [hCJ]; exact hJ i j)]; ring
+  · refine sum_congr rfl (fun i _ => ?_)
+    rw [coeff100_diag_exact _ _ i (by rw [hCh]; exact hH i)]; ring
+  · exact round2_exact _ (by rw [hCc]; exact hC)
+
+/-- regression of the model of the pinned loader: a valid file whose last variable occurs only as a column
+    (Ising export of [[1,0,0],[0,0,4],[0,0,-2]]) fails the old `max row == max col` test -/
+theorem loadPinned_rejects_valid :
+    loadPinnedAccepts (Container.mk' 3 (matOf [[1,0,0],[0,0,4],[0,0,-2]]) 0 "none").exportIsing = false := by
+  decide +kernel
 
 end Vrp.C10
